@@ -227,6 +227,14 @@ impl RtpHeader {
                 new_data.push(id_header);
                 new_data.extend_from_slice(data);
             } else {
+                if offset + len > ext.data.len() {
+                    // Element overruns the (network-supplied) block: reject
+                    // instead of slicing out of bounds.
+                    self.extension = Some(ext);
+                    return Err(RtpError::InvalidHeader(
+                        "malformed header extension block",
+                    ));
+                }
                 new_data.push(b);
                 new_data.extend_from_slice(&ext.data[offset..offset + len]);
             }
